@@ -42,6 +42,7 @@ What is proved for all inputs, and what is not:
 import PyttbModel.Lemmas.Presentation
 import PyttbModel.Lemmas.PresentationRun
 import PyttbModel.Lemmas.PresentationRelabelWitness
+import PyttbModel.Lemmas.PresentationTuckerWitness
 namespace Pyttb
 open Pres
 
@@ -597,6 +598,84 @@ theorem C18_relabel_cpals_run {D D' : Data α} {S S' : Services α} {o : NumOps 
 
 end cpals_relabel
 
+/-! ### scaling the data by c > 0: a whole Tucker-ALS run
+
+The model is the one of C10 (`Alg/TuckerAls.lean`: `sweepStep`, `sweep`, `iterate`, `tuckerAlsRun`, scalar
+formulas generated from the source), executed over ℝ (`Tk.realOps`).  `Tk.dscale c X` is `c • X`.
+`tensor.nvecs` is a service `nvecs k W n r` (call number, tensor, mode, rank).  Its contract `Tk.NvecsSpec`
+says nothing about scaling: *whenever the Gram matrix `Z` of the requested unfolding has an `m × r` matrix of
+leading eigenvectors in the sense of `Tk.LeadSpec` (orthonormal columns; column `i` an eigenvector for `μ i`;
+`μ` decreasing; every eigenvalue with an eigenvector orthogonal to the columns is `≤` every `μ i`; in every
+column an entry of largest magnitude is positive — `flipsign`), the answer is one*.  That `LeadSpec Z m r A`
+and `LeadSpec (t • Z) m r A` are equivalent for `t > 0` is a theorem (`C18_scale_tucker_nvecs_spec`), so where
+the contract has exactly one admissible answer (`∃! A, LeadSpec …` — the generic case of distinct leading
+eigenvalues; `Tk.DetRun` says this of every request of the FIRST run) the service must give the same matrix
+for `W` and for `c • W` (`C18_scale_tucker_nvecs`): the equality of the factor matrices is a consequence. -/
+
+section tucker_run
+open Tk
+
+/-- Leading eigenvectors (in the sense of the contract) of `Z` and of `t • Z`, `t > 0`, are the same matrices. -/
+theorem C18_scale_tucker_nvecs_spec {Z : Mat ℝ} {m r : Nat} {A : Mat ℝ} {t : ℝ} (ht : 0 < t) :
+    LeadSpec (mscale t Z) m r A ↔ LeadSpec Z m r A :=
+  leadSpec_scale_iff ht
+
+/-- A service that satisfies the contract answers the request about `c • W` like the request about `W`
+wherever the contract determines the answer: the Gram matrix of the unfolding of `c • W` is `c²` times that of
+`W` (`gramMode_dscale`), both answers are leading-eigenvector matrices of the SAME matrix, and there is only one. -/
+theorem C18_scale_tucker_nvecs {nvecs : Nat → Dense ℝ → Nat → Nat → Mat ℝ} (hC : NvecsSpec nvecs) {c : ℝ}
+    (hc : 0 < c) (k : Nat) (W : Dense ℝ) (n r : Nat)
+    (hdet : ∃! A, LeadSpec (gramMode W n) (W.shape.getD n 0) r A) :
+    nvecs k (dscale c W) n r = nvecs k W n r :=
+  nvecs_dscale hC hc k W n r hdet
+
+/-- One pass of `for n in dimorder` + the core: same factors, the core scaled by `c`, same number of service
+calls — and the second sweep fails exactly when the first does. -/
+theorem C18_scale_tucker_sweep {nvecs : Nat → Dense ℝ → Nat → Nat → Mat ℝ} (hC : NvecsSpec nvecs) {c : ℝ}
+    (hc : 0 < c) (X : Dense ℝ) (rank order : List Nat) (U : List (Mat ℝ)) (calls : Nat)
+    (hdet : DetSweep nvecs X rank order ⟨U, none, calls⟩) :
+    sweep nvecs (dscale c X) rank order U calls =
+      (sweep nvecs X rank order U calls).map fun t => (t.1, dscale c t.2.1, t.2.2) :=
+  sweep_dscale hC hc X rank order U calls hdet
+
+/-- **Whole-run scale equivariance of Tucker-ALS.**  For `c > 0`, the same start, options and services, the
+run on `c • X` is the run on `X` with every core and every residual norm multiplied by `c`:
+`tuckerAlsRun … (c • X) … = (tuckerAlsRun … X …).map (scaleOut c, recs.map (scaleRec c))` — an equality of
+results, so the second run rejects exactly when the first does, executes the same number of passes (the list
+of executed passes has the same length: same stop iteration), has in every pass the SAME factor matrices, the
+core scaled by `c`, the same `fit` and `fitchange`, and returns the same factors, the core scaled by `c`, the
+same `uinit`, `iters`, `fit` and `c ·` the residual norm.
+Hypotheses: the contract of `nvecs`; `c > 0`; every request of the first run has exactly one admissible answer
+(`DetRun`; automatic when all modes have extent one, `Tk.detRun11`); for `init = "nvecs"` (only) the two
+starts — answers of the service about the data itself — coincide (`InitScaleOK`). -/
+theorem C18_scale_tucker_run {nvecs : Nat → Dense ℝ → Nat → Nat → Mat ℝ} (hC : NvecsSpec nvecs)
+    (uniform : Nat → Nat → Nat → Mat ℝ) {c : ℝ} (hc : 0 < c) (X : Dense ℝ) (rank : List Nat) (stoptol : ℝ)
+    (maxiters : Int) (dimorder : Option (List Nat)) (init : Tk.Init ℝ) (hinit : InitScaleOK nvecs c X init)
+    (hdet : DetRun nvecs uniform X rank maxiters dimorder init) :
+    tuckerAlsRun realOps nvecs uniform (dscale c X) rank stoptol maxiters dimorder init =
+      (tuckerAlsRun realOps nvecs uniform X rank stoptol maxiters dimorder init).map
+        fun t => (scaleOut c t.1, t.2.map (scaleRec c)) :=
+  run_dscale hC uniform hc X rank stoptol maxiters dimorder init hinit hdet
+
+/-- The same, read off for a run that returns: the run on `c • X` returns; same `iters`, same `fit`, residual
+norm times `c`, the same factor matrices, the core times `c`, and pass by pass the same factors / fits. -/
+theorem C18_scale_tucker_run_ok {nvecs : Nat → Dense ℝ → Nat → Nat → Mat ℝ} (hC : NvecsSpec nvecs)
+    (uniform : Nat → Nat → Nat → Mat ℝ) {c : ℝ} (hc : 0 < c) (X : Dense ℝ) (rank : List Nat) (stoptol : ℝ)
+    (maxiters : Int) (dimorder : Option (List Nat)) (init : Tk.Init ℝ) (hinit : InitScaleOK nvecs c X init)
+    (hdet : DetRun nvecs uniform X rank maxiters dimorder init) {out : TaOut ℝ} {recs : List (IterRec ℝ)}
+    (h : tuckerAlsRun realOps nvecs uniform X rank stoptol maxiters dimorder init = .ok (out, recs)) :
+    ∃ out' recs', tuckerAlsRun realOps nvecs uniform (dscale c X) rank stoptol maxiters dimorder init = .ok (out', recs') ∧
+      out'.iters = out.iters ∧ out'.fit = out.fit ∧ out'.normresidual = c * out.normresidual ∧
+      out'.solution.factors = out.solution.factors ∧ out'.solution.core = dscale c out.solution.core ∧
+      out'.uinit = out.uinit ∧ recs'.length = recs.length ∧
+      recs'.map (·.factors) = recs.map (·.factors) ∧ recs'.map (·.fit) = recs.map (·.fit) := by
+  refine ⟨scaleOut c out, recs.map (scaleRec c), ?_, rfl, rfl, rfl, rfl, rfl, rfl, by simp, ?_, ?_⟩
+  · rw [C18_scale_tucker_run hC uniform hc X rank stoptol maxiters dimorder init hinit hdet, h]; rfl
+  · simp [List.map_map, Function.comp_def, scaleRec]
+  · simp [List.map_map, Function.comp_def, scaleRec]
+
+end tucker_run
+
 /-! ### the hypotheses are satisfiable / the models compute something -/
 
 -- the stream fills matrices row by row, in call order, and reports what is left
@@ -663,6 +742,21 @@ example : ∃ out out' : CpAls.Output ℝ,
 example : CpAls.ParityOK CpAls.ratOps ⟨[2], [[[-1]], [[3], [4]], [[-4], [-3]]]⟩ ∧ ¬ CpAls.ParityOK CpAls.ratOps CpAls.negK := by
   unfold CpAls.ParityOK
   decide
+-- whole-run scaling of Tucker-ALS, all hypotheses of `C18_scale_tucker_run` at once: the service `Tk.svc1` satisfies
+-- the contract (it answers [[1]] for a mode of extent one, otherwise — by choice — some matrix of leading eigenvectors
+-- when there is one); data = the 1 × 1 array [[2]] and 3 · [[2]]; ranks [1, 1], second mode first, given start; every
+-- request has exactly one admissible answer; the first run returns, hence the second: same factors, core times 3.
+example : ∃ out recs out' recs',
+    Tk.tuckerAlsRun Tk.realOps Tk.svc1 (fun _ _ _ => []) Tk.X11 [1, 1] 0 1 (some [1, 0]) (.list [[[1]], [[1]]]) = .ok (out, recs) ∧
+    Tk.tuckerAlsRun Tk.realOps Tk.svc1 (fun _ _ _ => []) (Tk.dscale 3 Tk.X11) [1, 1] 0 1 (some [1, 0]) (.list [[[1]], [[1]]])
+      = .ok (out', recs') ∧
+    out'.fit = out.fit ∧ out'.iters = out.iters ∧ out'.solution.factors = out.solution.factors ∧
+    out'.solution.core = Tk.dscale 3 out.solution.core := by
+  obtain ⟨⟨out, recs⟩, h⟩ := Tk.run11_ok
+  obtain ⟨out', recs', h', r1, r2, _, r4, r5, _⟩ :=
+    C18_scale_tucker_run_ok Tk.svc1_spec (fun _ _ _ => []) (c := 3) (by norm_num) Tk.X11 [1, 1] 0 1 (some [1, 0])
+      (.list [[[1]], [[1]]]) trivial (Tk.detRun11 _ _ _ _ _) h
+  exact ⟨out, recs, out', recs', h, h', r2, r1, r4, r5⟩
 -- the MU fix-up acts exactly on the (near-)zero entries with a positive multiplier, never in the first iteration
 example : muFixupIf 1 (1 : Int) 1 [[1, 0], [2, 3]] [[0, 0], [5, 0]] = [[1, 0], [5, 1]] ∧
     muFixupIf 0 (1 : Int) 1 [[1, 0], [2, 3]] [[0, 0], [5, 0]] = [[0, 0], [5, 0]] ∧
